@@ -79,3 +79,17 @@ Theorem handover_registered_in_queue_order : forall s c q,
   forall d ok, d <> c -> step s (EReg d ok) = None.
 Proof. exact wake_cannot_end_with_queued. Qed.
 Print Assumptions handover_registered_in_queue_order.
+
+(* every byte readable when a hang-up is reported is offered to the read callback before cb_close:
+   a context whose CLOSED flag nobody set (no local shutdown, no read that returned 0 or failed)
+   and whose connection was not reset gets cb_close only after cb_msg has read everything the
+   peer sent.  The model's dispatch step is the common shape of the select, poll and epoll loops
+   (readable => cb_read first, flag tested afterwards). *)
+Theorem bytes_delivered_before_close_on_hup : forall h c x s' r,
+  let s := run init h in
+  step s (EClose c) = Some (s', r) ->
+  nth_error (ctxs s) c = Some x ->
+  k_flag x = false -> preset s (k_conn x) = false ->
+  pclosed s (k_conn x) = true /\ k_got x = sent s (k_conn x).
+Proof. exact close_on_hup_after_all_bytes. Qed.
+Print Assumptions bytes_delivered_before_close_on_hup.
